@@ -19,6 +19,8 @@ pub enum Op {
     /// next_squared instead of next
     PushSquared(Vec<f64>),
     Reset,
+    /// carry on with a clone of the detector (the original is dropped)
+    CloneSwap,
 }
 
 #[derive(Clone, Debug, Serialize, Deserialize)]
@@ -102,6 +104,7 @@ where
     let mut had_reset_after_input = false;
     let mut turned_over = false;
     let mut last_out: Option<[S::Float; C]> = None;
+    let mut cloned = false;
     for (k, op) in c.ops.iter().enumerate() {
         match op {
             Op::Reset => {
@@ -120,6 +123,15 @@ where
                     ensure!(zero_ok, "op #{}: after reset() current() channel {} = {} (not the all-zero state)", k, ch, v);
                 }
                 last_out = None;
+            }
+            Op::CloneSwap => {
+                let cl = rms.clone();
+                let (a, b) = (rms.current(), cl.current());
+                for ch in 0..C {
+                    ensure!(fl_to_f64(a[ch]).to_bits() == fl_to_f64(b[ch]).to_bits(), "op #{}: a clone reports current() = {} in channel {}, the original {}", k, fl_to_f64(b[ch]), ch, fl_to_f64(a[ch]));
+                }
+                rms = cl;
+                cloned = true;
             }
             Op::Push(vals) | Op::PushSquared(vals) => {
                 ensure!(vals.len() == C, "bad case: wrong channel count");
@@ -191,6 +203,7 @@ where
     st.class_if(turned_over, "history longer than the window");
     st.class_if(c.ops.len() as u64 >= 10 * n as u64 && turned_over, "history >= 10 x window");
     st.class_if(had_reset_after_input, "reset after non-zero input");
+    st.class_if(cloned && t > 0, "detector cloned mid-history");
     st.class_if(c.exact, "exact regime (grid values)");
     st.class_if(approx && f32_companion, "approximate sqrt, f32");
     st.class_if(approx && !f32_companion, "approximate sqrt, f64");
@@ -243,7 +256,7 @@ fn value(exact: bool) -> BoxedStrategy<f64> {
 }
 
 pub fn case_strategy(max_mult: usize) -> impl Strategy<Value = Case> {
-    (0usize..7, proptest::sample::select(vec![1usize, 2, 5]), prop_oneof![4 => 1usize..=64, 1 => proptest::sample::select(vec![100usize, 1000])], any::<bool>(), 0usize..7).prop_flat_map(
+    (0usize..7, proptest::sample::select(vec![1usize, 2, 5]), prop_oneof![4 => 1usize..=64, 1 => proptest::sample::select(vec![100usize, 1000])], any::<bool>(), 0usize..8).prop_flat_map(
         move |(ki, channels, n, exact, profile)| {
             let len = (n * max_mult).min(3000).max(4);
             let push = proptest::collection::vec(value(exact), channels);
@@ -251,6 +264,7 @@ pub fn case_strategy(max_mult: usize) -> impl Strategy<Value = Case> {
                 12 => push.clone().prop_map(Op::Push),
                 4 => push.prop_map(Op::PushSquared),
                 1 => Just(Op::Reset),
+                1 => Just(Op::CloneSwap),
             ];
             proptest::collection::vec(op, 1..len).prop_map(move |mut ops| {
                 // value profiles on top of the random history
@@ -298,6 +312,12 @@ pub fn case_strategy(max_mult: usize) -> impl Strategy<Value = Case> {
                                     *x = if i % 2 == 0 { x.abs() } else { -x.abs() };
                                 }
                             }
+                            7 if !exact => {
+                                // quiet throughout: the whole history sits four decades below full scale
+                                for x in v.iter_mut() {
+                                    *x *= 1e-4;
+                                }
+                            }
                             6 => {
                                 // the first channel falls silent while the others carry on (channels are independent)
                                 if i > l / 3 {
@@ -324,13 +344,14 @@ pub fn case_strategy(max_mult: usize) -> impl Strategy<Value = Case> {
 pub fn run_core(ctx: &mut Ctx) {
     ctx.set_rule(
         "cases are (format out of f32, f64, i16, i32, u8, I24, U48; 1, 2 or 5 channels; window length N in 1..=64 or {100, 1000}; history of push / push-squared / reset operations of up to 50 x N (max 3000) \
-         operations, with value profiles random, loud-then-silent, constant, alternating sign, loud / far quieter but non-zero / reset / ordinary, first channel silent while the others carry on; exact flag = all values on the grid k/64); long single runs of 1e5 (thorough 1e6) pushes; \
+         operations, with value profiles random, loud-then-silent, constant, alternating sign, loud / far quieter but non-zero / reset / ordinary, first channel silent while the others carry on, quiet throughout (x 1e-4); the detector may be replaced by its clone at any point; exact flag = all values on the grid k/64); long single runs of 1e5 (thorough 1e6) pushes; \
          non-trivial: history longer than the window, or a reset after non-zero input, or an integer or multi-channel format",
     );
     ctx.assume("reference = mean of the squares of the exact amplitudes of the last N pushes since the last reset (zero-initialised window), in f64; exact regime (std): next_squared == mean and next == sqrt(mean) exactly; general regime: |next_squared - mean| <= u X^2 (2.2 T (N+1)/N + 5) with u the unit round-off of the format's Float, X the peak since reset, T the pushes since reset; next in [sqrt(max(lo,0))(1-c) - a, sqrt(hi)(1+c) + a] with (c, a) = (4u, 0) for the libm square root and (0.07, 2^-62 / 2^-500) for the no_std approximation");
     ctx.assume("after reset() the detector must agree bit for bit with a fresh detector fed the same subsequent input");
     ctx.require_class("history >= 10 x window");
     ctx.require_class("reset after non-zero input");
+    ctx.require_class("detector cloned mid-history");
     ctx.require_class("integer format");
     if sqrt_is_approximate() {
         ctx.require_class("approximate sqrt, f32");
@@ -339,6 +360,34 @@ pub fn run_core(ctx: &mut Ctx) {
         ctx.require_class("exact regime (grid values)");
     }
     ctx.prop("histories", ctx.pick(3000, 40_000), case_strategy(50), check);
+
+    // constructed histories: exactly N loud frames (0.5: exact squares), exactly N far quieter non-zero frames (their squares
+    // vanish below the rounding unit of the running sum, which therefore returns to exactly 0 while the window is not
+    // silent), reset, then 2N + 2 quiet frames — compared bit for bit with a fresh detector after the reset
+    let mut cases = Vec::new();
+    for &kind in &KINDS {
+        let f32_companion = matches!(kind, Kind::F32) || matches!(kind, Kind::Int { bits, .. } if bits <= 32);
+        let q = if f32_companion { 1e-4 } else { 1e-9 };
+        for channels in [1usize, 2] {
+            for n in [1usize, 2, 3, 5, 8, 16, 64] {
+                for extra_quiet in [0usize, 1, n] {
+                    let mut ops = Vec::new();
+                    for _ in 0..n {
+                        ops.push(Op::Push(vec![0.5; channels]));
+                    }
+                    for i in 0..n + extra_quiet {
+                        ops.push(Op::Push(vec![if i % 2 == 0 { q } else { -q }; channels]));
+                    }
+                    ops.push(Op::Reset);
+                    for i in 0..2 * n + 2 {
+                        ops.push(if i % 3 == 2 { Op::PushSquared(vec![1.5 * q; channels]) } else { Op::Push(vec![1.5 * q; channels]) });
+                    }
+                    cases.push(Case { kind, channels, n, ops, exact: false });
+                }
+            }
+        }
+    }
+    ctx.enumerate("loud-quiet-reset-quiet", true, cases.into_iter(), check);
 
     // long runs: loud/quiet alternation, windows 1, 2, 7, 64, 1000
     let long = ctx.pick(100_000usize, 1_000_000);
